@@ -240,9 +240,12 @@ def run(ctx):
                    {"id": k, "src": d.get("src"), "panic": d["panic"]})
     ctx.violations.sort(key=lambda v: len(v[2].get("src") or "x" * 10**6))
     kinds = {}
+    shapes = {}
     for p, c in positions.items():
         e = p.rsplit(":", 1)[1]
         kinds[e] = kinds.get(e, 0) + c
+        w = p.rsplit(":", 1)[0].rsplit("@", 1)[-1] if "@" in p else "None"
+        shapes[w] = shapes.get(w, 0) + c
     cov = {
         "evaluations": n_eval + n_tie, "distinct_nontrivial": len(distinct),
         "rule": "tie case = one program (82-program corpus, G-prog, effect programs): model anf on its real Lift dump vs the real ANF, exact; "
@@ -259,7 +262,7 @@ def run(ctx):
         "runs_that_fail(panic expected at a definite point)": n_fail_runs,
         "lazy_schedule_runs(programs with go)": n_go_sched,
         "rejected_by_gocheck(owned by C02, Go stage skipped)": n_invalid_go, "fuel_exhausted(skipped)": n_fuel,
-        "effect_kinds_placed": kinds, "distinct_positions": len({p.rsplit(':', 1)[0] for p in positions}),
+        "effect_kinds_placed": kinds, "operand_wrapper_shapes_placed(nearly trivial shape around the effectful core)": shapes, "distinct_positions": len({p.rsplit(':', 1)[0] for p in positions}),
         "forms": forms, "generator": feats,
         "impl_oracle_failures": len(ctx.violations), "model_diffs": n_tie - n_tie_eq - n_tie_eqt,
     }
